@@ -122,13 +122,41 @@ func (n *FileNode) Needed(a, b int64) map[string]bool {
 func (n *FileNode) FirstSpanOf(withheld map[string]bool) int64 {
 	best := int64(-1)
 	n.walk(func(m *FileNode) {
-		if withheld[m.Cid.KeyString()] {
+		// a block whose span is empty contributes no byte: a reader never needs it
+		if withheld[m.Cid.KeyString()] && m.End > m.Start {
 			if best < 0 || m.Start < best {
 				best = m.Start
 			}
 		}
 	})
 	return best
+}
+
+// EmptyStarts returns the byte positions at which withheld blocks with an empty
+// span occur (a reader may or may not open such a block when it gets there).
+func (n *FileNode) EmptyStarts(withheld map[string]bool) []int64 {
+	var out []int64
+	n.walk(func(m *FileNode) {
+		if withheld[m.Cid.KeyString()] && m.End == m.Start {
+			out = append(out, m.Start)
+		}
+	})
+	return out
+}
+
+// EmptySpan reports, per block (KeyString), whether every occurrence of it has
+// an empty byte span (zero-length chunks and subtrees made of them).
+func (n *FileNode) EmptySpan() map[string]bool {
+	out := map[string]bool{}
+	n.walk(func(m *FileNode) {
+		k := m.Cid.KeyString()
+		if m.End > m.Start {
+			out[k] = false
+		} else if _, seen := out[k]; !seen {
+			out[k] = true
+		}
+	})
+	return out
 }
 
 // CidSet is a helper turning a cid slice into a KeyString set.
